@@ -74,11 +74,13 @@ type reqInfo struct {
 	headers   *MapObj
 	lazyExtra bool
 	url       *urlInfo
+	explicitHdr map[string][]Value
 }
 
 type urlInfo struct {
 	req      *reqInfo // request URL: Query() is the request's query map
 	rawQuery *Term
+	simple   bool // built by the harness from components over plain alphabets
 }
 
 func (x *Exec) param(ri *reqInfo, key string) *paramInfo {
@@ -136,6 +138,13 @@ func (x *Exec) lazyEntry(m *MapObj, key string) *MapEntry {
 		m.Entries = append(m.Entries, e)
 		return e
 	case "header":
+		if ri.explicitHdr != nil {
+			// the harness gave the headers explicitly: nothing else is present
+			vals, ok := ri.explicitHdr[key]
+			e := &MapEntry{Key: StrC(key), Present: BoolC(ok && len(vals) > 0), Val: x.makeSlice(vals)}
+			m.Entries = append(m.Entries, e)
+			return e
+		}
 		has := x.sym(ri.name+".h."+key+"?", SBool)
 		n := x.sym(ri.name+".h."+key+"#", SInt)
 		e := &MapEntry{Key: StrC(key), Present: has, Val: &headerVals{name: ri.name + ".h." + key, n: n}}
@@ -303,9 +312,13 @@ func registerHTTPModels(e *Engine) {
 		// symbolic raw query: empty iff the raw query is empty; otherwise one
 		// entry whose presence is symbolic ("a=b" has one, "&" has none)
 		mo := &MapObj{Epoch: x.epoch}
-		has := x.fresh("urlquery.nonempty", SBool)
+		has := UFSort("urlquery.nonempty", SBool, rq)
 		x.assume(Implies(Eq(rq, StrC("")), Not(has)))
-		mo.Entries = append(mo.Entries, &MapEntry{Key: x.fresh("urlquery.key", SStr), Present: has, Val: x.makeSlice([]Value{x.fresh("urlquery.val", SStr)})})
+		if ui != nil && ui.simple {
+			// query over [a-z0-9=]*: one key whenever it is not empty
+			x.assume(Eq(has, Not(Eq(rq, StrC("")))))
+		}
+		mo.Entries = append(mo.Entries, &MapEntry{Key: UF("urlquery.key", rq), Present: has, Val: x.makeSlice([]Value{UF("urlquery.val", rq)})})
 		return &MapV{M: mo}
 	}
 	m["(net/url.Values).Get"] = func(x *Exec, fr *frame, a []Value) Value {
